@@ -95,6 +95,15 @@ def r1_shared_ir(chk):
             norm(rets[0].value) == '(%s, %s)' % (b['mi'], rend[0].targets[0].id)
         chk.ob('C04.R1', '%s.genCode/returns-mibinfo-text' % cname, okr, where(o.mod, fn),
                'must return (MibInfo of the IR pass, rendered text)')
+        if rend:
+            tv = rend[0].targets[0].id
+            again = [x for x in walk_no_nested(fn) if isinstance(x, (ast.Assign, ast.AugAssign)) and x is not rend[0] and
+                     any(isinstance(t, ast.Name) and t.id == tv
+                         for t in (x.targets if isinstance(x, ast.Assign) else [x.target]))]
+            chk.ob('C04.R1', '%s.genCode/rendered-text-returned-as-is' % cname, not again,
+                   where(o.mod, again[0]) if again else where(o.mod, fn),
+                   'the rendered text is edited after rendering (%s): what is returned is no longer what the template '
+                   'and its filters produced' % '; '.join(norm(x)[:60] for x in again[:2]))
     so = class_attr_value(model, PYSNMP, 'PySnmpCodeGen', 'SMI_OBJECTS')
     st = class_attr_value(model, ir.SYMTAB, 'SymtableCodeGen', 'symsTable')
     same = sorted(so) == sorted(st) and all(tuple(so[k]) == tuple(st[k]) for k in so)
@@ -133,6 +142,35 @@ def r1_shared_ir(chk):
         isinstance(n, ast.Call) and isinstance(n.func, ast.Attribute) and n.func.attr in ('pop', 'popitem', 'clear') and
         ctx in norm(n.func.value))]
     chk.ob('C04.R1', 'adapter-keeps-all-records', not dels, where(mod, fn), 'records removed: %s' % [norm(d) for d in dels])
+    # no member of a record is rewritten on the pysnmp side only (the JSON document would then say something else):
+    # item stores in genCode outside translateOids may only target the context itself (context['imports'] = ..., the
+    # re-ordered copy objects[symbol] = definition) - never a record taken from it
+    record_vars = set()
+    for n in walk_no_nested(fn):
+        if isinstance(n, ast.For):
+            it = norm(n.iter)
+            if ('%s.values()' % ctx) in it or ('%s.items()' % ctx) in it:
+                tg = n.target.elts[-1] if isinstance(n.target, ast.Tuple) else n.target
+                if isinstance(tg, ast.Name):
+                    record_vars.add(tg.id)
+    rew = []
+    for n in walk_no_nested(fn):
+        tgs = n.targets if isinstance(n, ast.Assign) else [n.target] if isinstance(n, ast.AugAssign) else []
+        for t in tgs:
+            if isinstance(t, ast.Subscript):
+                base = t.value
+                while isinstance(base, ast.Subscript):
+                    base = base.value
+                if isinstance(base, ast.Name) and (base.id in record_vars or (
+                        base.id == ctx and isinstance(t.value, ast.Subscript))):
+                    rew.append(n)
+        if isinstance(n, ast.Call) and isinstance(n.func, ast.Attribute) and n.func.attr in (
+                'update', 'setdefault', 'pop', 'clear') and isinstance(n.func.value, ast.Name) and \
+                n.func.value.id in record_vars:
+            rew.append(n)
+    chk.ob('C04.R1', 'adapter-rewrites-no-record-member', not rew, where(mod, rew[0]) if rew else where(mod, fn),
+           'the pysnmp adapter changes a member of an IR record (%s): the generated module and the JSON document then '
+           'disagree about it' % '; '.join(norm(x)[:70] for x in rew[:2]))
     # import translation
     loop = [n for n in fn.body if isinstance(n, ast.For) and "%s.get('imports'" % ctx in norm(n.iter)]
     ok = len(loop) == 1
@@ -404,5 +442,59 @@ def r9_definition_order(chk):
             chk.ob('C04.R9', o.key, o.ok, o.where, o.detail)
 
 
+
+def r10_rendering_paths_are_python(chk, rule='C04.R10'):
+    """Every rendering path of the pysnmp templates is syntactically valid Python (vt/tmplpaths.py): the template is
+    walked, not rendered - each-choice coverage of every `if`, 0-3 iterations of every `for` (all arms of the
+    loop.first / loop.last idiom), macros expanded, every {{ expression }} replaced by an atom that fits its lexical
+    position - and the text of each path is handed to Python's parser.  SyntaxWarnings count (the parser's "perhaps
+    you missed a comma?" is exactly what a forgotten separator between two rendered tuples looks like)."""
+    import os
+    import warnings
+    from jinja2 import nodes as jn
+    from vt import tmplpaths as tp
+    chk.doc(rule, 'pysnmp templates: for every block, every rendering path (each branch of every if, 0/1/2/3 iterations '
+                  'of every for, macros expanded) yields text that Python parses without error or SyntaxWarning: a '
+                  'generated module cannot fail to load because of the shape of the template')
+    total = 0
+    for rel in ('pysmi/codegen/templates/pysnmp/mib-definitions.j2',
+                'pysmi/codegen/templates/pysnmp/managed-objects-instances.j2',
+                'pysmi/codegen/templates/pysnmp/base.j2'):
+        path = os.path.join(chk.repo, rel)
+        if not os.path.exists(path):
+            continue
+        chk.unit(rel)
+        env, tree, src = tp.parse(path)
+        w = tp.Walker(env, tree, src, tp.marker_placeholder)
+        blocks = list(tree.find_all(jn.Block))
+        units = [(b.name, b.body) for b in blocks] or [('<template>', tree.body)]
+        if blocks:
+            # text outside blocks
+            units.append(('<outside blocks>', [n for n in tree.body if not isinstance(n, jn.Block)]))
+        for name, body in units:
+            scs = w.scenarios(body)
+            bad = None
+            for sc, text in scs:
+                py = tp.fill_python_placeholders(text)
+                total += 1
+                try:
+                    with warnings.catch_warnings():
+                        warnings.simplefilter('error')
+                        compile(py, '<rendered %s>' % name, 'exec')
+                except (SyntaxError, SyntaxWarning) as e:
+                    ln = getattr(e, 'lineno', None)
+                    lines = py.split('\n')
+                    ctx = ' / '.join(x.strip() for x in lines[max(0, (ln or 1) - 3):(ln or 1) + 1] if x.strip())
+                    bad = '%s: %s; choices %s %s; rendered near: %s' % (
+                        type(e).__name__, getattr(e, 'msg', None) or e,
+                        dict((k[1], v) for k, v in sc.ifs.items()), dict((k[1], v) for k, v in sc.loops.items()),
+                        ctx[:200])
+                    break
+            chk.ob(rule, '%s/%s' % (rel.split('/')[-1], name), bad is None, rel,
+                   bad or 'all %d rendering paths parse' % len(scs))
+    chk.note('%s: %d rendering paths parsed' % (rule, total))
+    chk.floor(rule, 20, 'template blocks')
+
+
 RULES = [r1_shared_ir, r2_class_exhaustiveness, r3_field_agreement, r4_default_formats, r5_import_export_spelling,
-         r6_sibling_tails, r7_one_line_literals, r8_star_tuples, r9_definition_order]
+         r6_sibling_tails, r7_one_line_literals, r8_star_tuples, r9_definition_order, r10_rendering_paths_are_python]
